@@ -828,14 +828,14 @@ func firstN(w []word, n int) []word {
 func init() {
 	RegisterRapid("C12_build",
 		"rapid: a script of Builder.Add calls made from a sorted duplicate-free word list (alphabets of 1..5 letters incl. bytes 0x00/0x80/0xff, or all 256 bytes; word lengths 0..7; nil and []byte{} for the empty word; words derived from earlier ones to share prefixes/suffixes) with out-of-order and duplicate words spliced in, then Finish. Checks: Add errors exactly for words not greater than the last accepted one; NumberOfWords; Lookup = (rank,true) on members and false on prefixes, extensions, one-byte mutations and random probes; via the verif hook the reachable node count equals the number of distinct residual languages (minimal DFA), per-node word counts, ascending labels, no equivalent nodes; dawg.New agrees. Non-trivial: >= 3 words sharing a prefix and a suffix, or an accepted Add after a rejected one.",
-		Budget{Checks: 3000, Shards: 1}, Budget{Checks: 20000, Shards: 8}, genBuildCase, checkBuildCase)
+		Budget{Checks: 3000, Shards: 1}, Budget{Checks: 200000, Shards: 16}, genBuildCase, checkBuildCase)
 	RegisterEnum("C12_small_sets",
 		"enumeration: every subset of the 7 words of length <= 2 over {a,b} (128 sets, incl. the empty set and {\"\"}) and every 2- and 3-element subset of the 15 words of length <= 3; same checks as C12_build. Complete for that family.",
 		true, Budget{Shards: 1}, Budget{Shards: 1}, enumSmallWordSets, checkBuildCase)
 	RegisterRapid("C13_search",
 		"rapid: word set as in C12 x 0..3 searchers, each a pattern or an anagram built from a stored word or from random letters (incl. one letter outside the alphabet), letters turned into blanks with probability 1/4, blank byte sometimes equal to a real letter. Oracle: filter of the sorted word list with matchers written from the doc comments, paired with list index. Search must return exactly that, the same again with the same searcher objects, and leave the Dawg (node dump, Lookup, NumberOfWords) unchanged. Non-trivial: some but not all words match, or a query mixes blanks and letters.",
-		Budget{Checks: 4000, Shards: 1}, Budget{Checks: 30000, Shards: 8}, genSearchCase, checkSearchCase)
+		Budget{Checks: 4000, Shards: 1}, Budget{Checks: 300000, Shards: 16}, genSearchCase, checkSearchCase)
 	RegisterRapid("C14_gob_roundtrip",
 		"rapid: word sets aimed at the 1-byte varint boundary: a node with 1,2,126..130,200,255,256 children (optionally two such nodes), >= 128 nodes, up to 2^17 words through few nodes, random sets over all 256 bytes, and small sets. GobDecode(GobEncode(d)) and encoding/gob round trips must succeed and give the same words, ranks, NumberOfWords, node table (hook) and Search results, and re-encode to identical bytes. Non-trivial: some node has >= 128 children, or there are >= 128 nodes, or some node counts >= 128 words.",
-		Budget{Checks: 1000, Shards: 1}, Budget{Checks: 3000, Shards: 8}, genGobCase, checkGobCase)
+		Budget{Checks: 1000, Shards: 1}, Budget{Checks: 6000, Shards: 16}, genGobCase, checkGobCase)
 }
